@@ -104,6 +104,10 @@ Definition clark (ns name : text) : text :=
 
 Definition nil_att : attr := (xsi_ns, t_nil, t_true).
 
+(** native values that are written as an element without content *)
+Definition nonelike (v : val) : bool :=
+  match v with VNone | VLeaf (LBytes []) => true | _ => false end.
+
 Definition of_opt (o : option pval) : val := match o with Some p => VLeaf p | None => VNone end.
 Definition is_text_leaf (l : ltype) : bool := match lt_spec l with SText => true | _ => false end.
 Definition no_kids (l : list xnode) : bool := match l with [] => true | _ => false end.
@@ -364,7 +368,8 @@ Section Codec.
     end.
 
   (** values that conform to a member *under the published schema*: occurrence, nillable,
-      shape, and (through [rec]) the member's type *)
+      shape, and (through [rec]) the member's type.  A value that denotes None as element content
+      (None itself, the empty byte string) needs a nillable member. *)
   Definition field_conf (rec : ty -> val -> bool) (f : field) (x : val) : bool :=
     (f_min f <=? occ f x)
     && match f_max f with Some m => occ f x <=? m | None => true end
@@ -381,11 +386,14 @@ Section Codec.
            if is_multi f then
              match x with
              | VNone => f_min f <=? 0
-             | VList xs => forallb (fun y => match y with VNone => f_nillable f | _ => true end && rec (f_ty f) y) xs
+             | VList xs => forallb (fun y => (if nonelike y then f_nillable f else true) && rec (f_ty f) y) xs
              | _ => false
              end
            else
-             match x with VNone => (f_min f <=? 0) || f_nillable f | _ => true end && rec (f_ty f) x
+             match x with
+             | VNone => (f_min f <=? 0) || f_nillable f
+             | _ => if nonelike x then f_nillable f else true
+             end && rec (f_ty f) x
        end.
 
   Fixpoint xconf (fuel : nat) (t : ty) (v : val) : bool :=
